@@ -59,7 +59,7 @@ Log(a, p, x) == FollowsScript(a, p, x) /\ hist' = Append(hist, [a |-> a, p |-> p
 
 \* simulation weighting only (RandomElement is evaluated afresh for every step TLC generates): starts, edits and
 \* crashes are thinned out so that invocations usually run on to their later steps
-Thin(k) == Scripted \/ RandomElement(1..k) = 1
+Thin(k) == Scripted \/ (\A q \in Procs : inv[q] = Idle) \/ RandomElement(1..k) = 1
 SInit == Init /\ hist = <<>> /\ ncrash = 0
 SNext ==
   \/ /\ UNCHANGED ncrash
